@@ -238,7 +238,12 @@ def cached_ops_elsewhere(an: Analysis):
     cache_classes = {prog.cls("helpers.caching._SyncCache").qualname, prog.cls("helpers.caching._AsyncCache").qualname}
     sib = {prog.fn(s[0]).qualname for s in SIBLINGS}
     out = []
+    referenced: set[str] = {n.attr for f in prog.scan_functions() for n in f.own_nodes() if isinstance(n, ast.Attribute)}
     for fi in prog.scan_functions():
+        # a public, non-dunder method of a cache class that nothing in the package calls or references is an operation the
+        # user may invoke *in addition to* calls: the property's histories (calls and clock advances) do not contain it
+        if fi.cls is not None and fi.cls.qualname in cache_classes and not fi.name.startswith("_") and fi.name not in referenced and fi.qualname not in sib:
+            continue
         for n in fi.own_nodes():
             if isinstance(n, ast.Attribute) and n.attr == "_cached":
                 t = prog.expr_type(fi, n.value)
